@@ -29,6 +29,16 @@ def has_kind(t, kinds):
     return any(has_kind(x, kinds) for x in subs)
 
 
+def corpus(decls):
+    """Always-on boundary cases of the memcpy fast paths: 1-tuples of byte-sized types at top level, in arrays
+    and in Vecs; bool / enum arrays and Vecs."""
+    E = lambda vs: ("enum", decls.add("enum", vs), vs)
+    u8, b, u64 = ("u8",), ("bool",), ("u64",)
+    e2 = E([u64, u64])
+    return [("tuple", [u8]), ("array", ("tuple", [u8]), 2), ("vec", ("tuple", [u8])), ("tuple", [b]), ("vec", ("tuple", [b])),
+            ("array", b, 3), ("vec", b), ("array", e2, 2), ("vec", e2), ("vec", u8), ("vec", ("u16",)), ("tuple", [("strarr", 3)])]
+
+
 def gen_test(rng, i, t):
     ty = ag.sway_type(t)
     v = ag.gen_value(rng, t)
@@ -46,26 +56,44 @@ def gen_test(rng, i, t):
 
 def run(ctx):
     ctx.level = "proof"
-    try:
-        from tools import facts_layout
-        facts_layout.generate()
-    except Exception as e:
-        ctx.violation("layout-facts", {"error": str(e)}, "layout/codec facts can no longer be translated from the source: %s" % e, no_input=True)
-        return
+    from tools import facts_layout
+    # translator failure: go on with the last good facts and search for a failing input; report the break last
+    facts_ok, facts_err = facts_layout.prepare()
+    if not facts_ok:
+        ctx.log("facts translator failed (%s): continuing with the last good facts, searching for a failing input" % facts_err)
     coq.build(["C09/Judge.vo"])
     ok, out = coq.check_props(ctx, "C09")
     if not ok:
         ctx.log(out[-3000:])
-        ctx.violation("proof", {"theorems": [o for o in ctx.obligations if not o[1]], "log": out[-2000:]}, "C09 proofs do not check", no_input=True)
+    if ok and facts_ok:
+        facts_layout.save_snapshot()
+    tie_broken = not (ok and facts_ok)
+
+    def tail_reports(n):
+        if not facts_ok:
+            ctx.violation("layout-facts", {"error": facts_err, "searched": n},
+                          "layout/codec facts can no longer be translated from the source (%s); the run used the last good facts" % facts_err, no_input=True)
+        if not ok:
+            ctx.violation("proof", {"theorems": [o for o in ctx.obligations if not o[1]], "log": out[-2000:]}, "C09 proofs do not check", no_input=True)
+
     base = os.path.join(ctx.work, "pkgs")
     npk, per, maxd = (6, 14, 3) if ctx.quick else (48, 30, 6)
     pk, idx = [], 0
+    plans = []
     for p in range(npk):
         decls = ag.Decls("Q%d" % p)
+        plans.append((decls, corpus(decls)[p::6] if p < 6 else [], per))
+    if tie_broken:
+        for k in range(0, len(ag.neighbourhood(ag.Decls("N"), with_heap=True)), 30):
+            dk = ag.Decls("N%d" % k)
+            plans.append((dk, ag.neighbourhood(dk, with_heap=True)[k:k + 30], 0))
+    for p, (decls, fixed, per) in enumerate(plans):
         tests, metas = [], []
-        for _ in range(per):
+        types = list(fixed)
+        while len(types) < per:
             d = ctx.rng.choice([0, 1, 1, 2, 2, maxd, maxd])
-            t = ag.gen_type(ctx.rng, d, decls, KINDS, LEAFS, max_fields=3)
+            types.append(ag.gen_type(ctx.rng, d, decls, KINDS, LEAFS, max_fields=3))
+        for t in types:
             src, m = gen_test(ctx.rng, idx, t)
             tests.append(src); metas.append(m); idx += 1
         src = "library;\nuse std::codec::*;\nuse std::bytes::Bytes;\nuse std::string::String;\n%s\n%s\n" % (decls.sway(), "\n".join(tests))
@@ -104,6 +132,7 @@ def run(ctx):
         rs = coq.run_cases(ctx, "c09", "From SwayV Require Import Base.Util Layout.Bytes Layout.Abi C09.Model C09.Judge.\nLocal Open Scope N_scope.", shards)
     except RuntimeError as e:
         ctx.violation("model-eval", {"log": str(e)[-3000:]}, "C09 judge could not be evaluated", no_input=True)
+        tail_reports(len(items))
         return
     hist = {}
     for k, sh_ in enumerate(rs):
@@ -116,6 +145,7 @@ def run(ctx):
                 ctx.violation(key, rep, "%s for a value of type %s" % (CODES[c], ag.shape(m["t"])))
             else:
                 ctx.violation(key, dict(rep, correspondence="C09.model=enc"), "check machinery/model inconsistent (%s)" % CODES.get(c, c), no_input=True)
+    tail_reports(len(items))
     ctx.coverage.update({
         "checker_cmd": "make -C coq C09/Props.vo C09/Judge.vo (coqc 8.16.1) + coqc vm_compute judge over fuel-vm LogData receipts",
         "trusted_base": ["Coq 8.16.1 kernel + vm_compute", "tools/facts_layout.py (codec.sw flags -> Generated/LayoutFacts.v)",
